@@ -294,7 +294,7 @@ struct KbPlan {
   method_id_override: u8, // 0 none, 1 signing method, 2 other method
   scope: u8,              // 0 None, 1 VerificationMethod, 2 Authentication, 3 AssertionMethod
   sig: u8,                // 0 valid, 1 stranger, 2 other method's key, 3 claims altered after signing
-  sd_hash: u8,            // 0 correct, 1 over reversed disclosure order, 2 over the jwt only, 3 garbage, 4 without trailing '~'
+  sd_hash: u8,            // 0 correct, 1 over reversed disclosure order, 2 over the jwt only, 3 garbage, 4 without trailing '~', 5 over another JWT (replay)
   nonce_opt: u8,          // 0 None, 1 equal, 2 different
   aud_opt: u8,
   window: u8,             // 0 no earliest/explicit latest far, 1 [E,L] explicit, 2 latest unset (wall clock)
@@ -366,7 +366,7 @@ impl KbPlan {
     match self.sd_hash {
       1 if order_matters => f.push("sd_hash"),
       2 if self.n_disclosures >= 1 => f.push("sd_hash"),
-      3 | 4 => f.push("sd_hash"),
+      3 | 4 | 5 => f.push("sd_hash"),
       _ => {}
     }
     if self.nonce_opt == 2 {
@@ -405,6 +405,19 @@ fn build_kb(rng: &mut Rng, p: &KbPlan, issuer_jwt: &str) -> (SdJwt, KeyBindingJW
     2 => digest_of(&hash_input(&[], true)),
     3 => url_encode(&rng.bytes(32)),
     4 => digest_of(&hash_input(&disclosures, false)),
+    5 => {
+      // a correctly formed hash, but over another issuer-signed JWT of the same holder (replay)
+      let other = issuer_jwt.replacen('.', ".e30", 1);
+      let mut s = other;
+      s.push('~');
+      s.push_str(&disclosures.join("~"));
+      if !disclosures.is_empty() {
+        s.push('~');
+      } else {
+        s.push('~');
+      }
+      digest_of(&s)
+    }
     _ => digest_of(&hash_input(&disclosures, true)),
   };
   const E: i64 = 1_690_000_000;
@@ -683,9 +696,21 @@ fn mutate_kb(rng: &mut Rng, p: &mut KbPlan, w: u64) {
     4 => p.scope = 1 + rng.below(3) as u8,
     5 => p.sig = 1 + rng.below(3) as u8,
     6 => {
-      p.sd_hash = 1 + rng.below(4) as u8;
-      if p.n_disclosures < 2 {
-        p.n_disclosures = 2 + rng.usize(2);
+      p.sd_hash = 1 + rng.below(5) as u8;
+      match p.sd_hash {
+        // the order / jwt-only variants only differ from the right hash when enough disclosures are presented
+        1 | 2 => {
+          if p.n_disclosures < 2 {
+            p.n_disclosures = 2 + rng.usize(2);
+          }
+        }
+        // garbage, missing trailing '~' and replay from another credential are wrong for ANY number of presented
+        // disclosures, including none at all
+        _ => {
+          if rng.bool() {
+            p.n_disclosures = 0;
+          }
+        }
       }
     }
     7 => p.nonce_opt = 2,
